@@ -385,3 +385,40 @@ func C13_Trim() {
 	}
 	nd.Observe(op + " " + pat)
 }
+
+// C13_PosName: a name made of digits is a positional parameter whatever its
+// length: it reflects Args (unset beyond them) and cannot be assigned. The
+// leading digits are symbolic; strconv.Atoi / ParseInt are interpreted from the
+// std source on them, so the solver also sees values beyond the int range.
+func C13_PosName() {
+	l := []int{1, 2, 3, 18, 19, 20, 21}[nd.Choice(7)]
+	// the two leading digits are symbolic, the rest are nines (20 free digits
+	// make 64-bit multiplication chains that no solver here decides)
+	name := nd.StrIn(1, "0123456789")
+	if l > 1 {
+		name += nd.StrIn(1, "0123456789")
+	}
+	for len(name) < l {
+		name += "9"
+	}
+	nd.Assume(name[0] != '0') // "0", "00" ... name parameter 0
+	env := interp.NewExecEnv("sh", "p1")
+	var inherited []string
+	env.Walk(func(v interp.Var) { inherited = append(inherited, v.Name) })
+	count := len(inherited)
+	env.Set(name, "v")
+	n := 0
+	env.Walk(func(v interp.Var) { n++ })
+	nd.Assert(n == count, "Set does not create a variable named like a positional parameter")
+	v, set := env.Get(name)
+	if l == 1 && name == "1" {
+		nd.Assert(set && v.Value == "p1", "$1 reflects Args")
+	} else {
+		nd.Assert(!set, "a positional parameter beyond Args is unset")
+	}
+	_, err := env.Expand(ast.Word{mkParam(name, ":=", ast.Word{&ast.Lit{Value: "w"}})}, interp.Literal)
+	if !set {
+		_, isPE := err.(interp.ParamExpError)
+		nd.Assert(isPE, "a positional parameter cannot be assigned with :=")
+	}
+}
